@@ -532,7 +532,17 @@ where
                     PoeticNumberLiteralIteratorItem::SuffixedWord(s, self.greedily_match_suffixes())
                 })
                 .unwrap_or_else(|| PoeticNumberLiteralIteratorItem::Word(s)),
-            PoeticNumberLiteralElem::WordSuffix(_) => unreachable!(),
+            // a suffix with no word before it (start of the literal, or right after a
+            // period) counts as a word of its own
+            PoeticNumberLiteralElem::WordSuffix(s) => self
+                .iter
+                .peek()
+                .filter(|e| matches!(e, PoeticNumberLiteralElem::WordSuffix(_)))
+                .is_some()
+                .then(|| {
+                    PoeticNumberLiteralIteratorItem::SuffixedWord(s, self.greedily_match_suffixes())
+                })
+                .unwrap_or_else(|| PoeticNumberLiteralIteratorItem::Word(s)),
         })
     }
 }
